@@ -118,6 +118,9 @@ pub struct E2History {
     pub panics: Vec<PanicEvent>,
     pub generous_at_step: Option<u32>,
     pub lib_results: Vec<LibResult>,
-    /// which task's send/print happened: task ids that finished before exit
+    /// spawned tasks that ran to completion before the run ended ...
     pub finished_before_exit: Vec<u32>,
+    /// ... and the scheduler step at which each of them did
+    #[serde(default)]
+    pub finished_steps: Vec<u32>,
 }
